@@ -94,7 +94,23 @@ func c02Ratchet(c *Ctx) {
 	base := key << 16
 	var start *ISet
 	target := []uint64{4096, 65536}[r.Intn(2)]
-	if target == 4096 {
+	if target == 4096 && r.Chance(0.4) {
+		// a chunk of ~2045 two-value runs: about 4096 values AND at the edge of run efficiency
+		// (2047 runs is the largest run chunk that is still the smallest form)
+		n := 2040 + r.Intn(12)
+		st := NewISet()
+		pos := uint64(r.Range(0, 8))
+		for i := 0; i < n; i++ {
+			st.AddRange(pos, pos+1)
+			pos += 2 + r.Range(2, 28)
+		}
+		for st.Card() < uint64(4090+r.Intn(6)) {
+			// lengthen a few runs
+			v := st.iv[r.Intn(len(st.iv))]
+			st.Add(v.Hi + 1)
+		}
+		start = ivsToSet(shiftIVs(st.iv, base))
+	} else if target == 4096 {
 		start = ivsToSet(shiftIVs(spreadN(r, 4090+r.Intn(12)), base))
 	} else {
 		start = ISetOf(IV{base, base + 65535})
